@@ -241,6 +241,45 @@ def _ttl_rules(tree: ast.Module) -> dict[str, str]:
     return rules
 
 
+LIMITER_INIT = [
+    "self._per_window = per_window",
+    "self._window = window_seconds",
+    "self._counts: dict[str, int] = {}",
+    "self._window_start = 0.0",
+    "self._lock = threading.Lock()",
+]
+LIMITER_ALLOW = [
+    "current = time.monotonic() if now is None else now",
+    "with self._lock:\n"
+    "    if current - self._window_start >= self._window:\n"
+    "        self._counts.clear()\n"
+    "        self._window_start = current\n"
+    "    count = self._counts.get(key, 0)\n"
+    "    if count >= self._per_window:\n"
+    "        return False\n"
+    "    self._counts[key] = count + 1\n"
+    "    return True",
+]
+
+
+def _limiter(tree: ast.Module, res: ast.ClassDef) -> tuple[bool, float]:
+    """``_RateLimiter``: fixed window, whole-map reset when ``now - start >= window``, refuse at ``count >= per_window``;
+    the resource builds it as ``_RateLimiter(rate_limit_per_second)`` (so the window is the default)."""
+    lim = _cls(tree, "_RateLimiter")
+    init = _meth(lim, "__init__")
+    allow = _meth(lim, "allow")
+    ok = [_u(s) for s in _body(init)] == LIMITER_INIT and [_u(s) for s in _body(allow)] == LIMITER_ALLOW
+    args = init.args
+    names = [a.arg for a in args.args]
+    window = None
+    if names == ["self", "per_window", "window_seconds"] and len(args.defaults) == 1 and isinstance(args.defaults[0], ast.Constant):
+        window = float(args.defaults[0].value)
+    built = any(_u(s) == "self._limiter = _RateLimiter(rate_limit_per_second)" for s in _body(_meth(res, "__init__")))
+    if window is None:
+        raise Unsupported("_RateLimiter.__init__ signature")
+    return bool(ok and built), window
+
+
 def _fingerprint(*nodes: ast.AST) -> str:
     return hashlib.sha256("\n".join(ast.dump(n, annotate_fields=False) for n in nodes).encode()).hexdigest()[:16]
 
@@ -288,9 +327,13 @@ def emit() -> dict[str, str]:
                                      "if introspect_resolver is not None else _IntrospectionDisabledResource()"
             )
 
+    limiter_ok, window = _limiter(tree, res)
+    ticks = window * 1024
+    if ticks != int(ticks):
+        raise Unsupported("limiter window is not a multiple of 1/1024 s")
     rx = mod._JWS_SHAPED
     pat = pattern_to_lean(rx.pattern, rx.flags)
-    fp = _fingerprint(on_post, _meth(res, "_read_token"), _meth(res, "_refuse"), dis)
+    fp = _fingerprint(on_post, _meth(res, "_read_token"), _meth(res, "_refuse"), dis, _cls(tree, "_RateLimiter"))
     nl = ",\n  "
     body = f"""import VgiVerif.Prelude.Regex
 namespace VgiVerif.Gen.C36
@@ -348,6 +391,13 @@ def disabledReadsRequest : Bool := {str(dis_uses_req).lower()}
 
 /-- `make_wsgi_app`: the route holds the live resource iff `introspect_resolver is not None`, else the disabled one -/
 def wiringOk : Bool := {str(wiring).lower()}
+
+/-- `_RateLimiter` has the fixed-window shape the model transliterates (`now - start >= window` → clear all counts and restart the
+window; `count >= per_window` → refuse; else count and allow), keyed by `caller`, built as `_RateLimiter(rate_limit_per_second)` -/
+def limiterShapeOk : Bool := {str(limiter_ok).lower()}
+
+/-- the limiter window in ticks of 1/1024 s (`window_seconds` default) -/
+def limiterWindowTicks : Int := {int(ticks)}
 
 /-- fingerprint of the modelled functions (a change shows up as drift and raises the search budget) -/
 def sourceFingerprint : String := "{fp}"
